@@ -68,8 +68,20 @@ pub fn history(seed: u64, idx: u64) -> Case {
                 }
                 let rounds = if last { max_size } else { 1 };
                 let mut probe: Vec<(Connection, usize)> = Vec::new();
+                // now and then two gets are in flight at once (their recycle checks overlap)
+                let mut prefetched: Vec<Result<Result<Connection, deadpool_redis::PoolError>, tokio::time::error::Elapsed>> = Vec::new();
+                if !last && max_size - held.len() >= 2 && rng.chance(1, 3) {
+                    let (a, b) = tokio::join!(tokio::time::timeout(Duration::from_secs(10), pool.get()), tokio::time::timeout(Duration::from_secs(10), pool.get()));
+                    prefetched.push(a);
+                    prefetched.push(b);
+                    *counters.entry("overlapping_gets".into()).or_insert(0) += 1;
+                }
+                let rounds = if prefetched.is_empty() { rounds } else { 2 };
                 for _ in 0..rounds {
-                    let r = tokio::time::timeout(Duration::from_secs(10), pool.get()).await;
+                    let r = match prefetched.pop() {
+                        Some(r) => r,
+                        None => tokio::time::timeout(Duration::from_secs(10), pool.get()).await,
+                    };
                     let mut c = match r {
                         Err(_) => {
                             v!("get_hang", "get() with {} of {} connections out did not return within 10s", held.len() + probe.len(), max_size);
@@ -176,6 +188,25 @@ pub fn history(seed: u64, idx: u64) -> Case {
                     }
                     log.push(format!("take conn {}", k));
                     taken.push((m, k, server.seq.load(Ordering::SeqCst)));
+                    nontrivial = true;
+                }
+                93..=96 if !held.is_empty() => {
+                    // the server drops a connection that is checked out; it is returned at once
+                    let i = rng.usize_below(held.len());
+                    let (c, k) = held.swap_remove(i);
+                    let st = server.conn(k);
+                    st.lock().unwrap().kill = true;
+                    for _ in 0..2000 {
+                        if st.lock().unwrap().ended {
+                            break;
+                        }
+                        tokio::time::sleep(Duration::from_micros(250)).await;
+                    }
+                    log.push(format!("server closed checked-out conn {}", k));
+                    let _ = dead.insert(k);
+                    let _ = return_seq.insert(k, server.seq.load(Ordering::SeqCst));
+                    idle.push(k);
+                    drop(c);
                     nontrivial = true;
                 }
                 73..=92 if !idle.is_empty() => {
